@@ -93,7 +93,9 @@ func dictKeyPool(r *rand.Rand, i int) (kind, text string, mk func() jen.Code) {
 }
 
 func nullCode(r *rand.Rand) jen.Code {
-	switch r.Intn(6) {
+	switch r.Intn(7) {
+	case 6:
+		return nil // an untyped nil key or value renders nothing: the pair is omitted (repaired defect D12)
 	case 0:
 		return jen.Null()
 	case 1:
